@@ -37,7 +37,7 @@ def _one(rec, variant):
     tmp = tempfile.mkdtemp(prefix="verif_c14_")
     try:
         try:
-            m = build_model(mr, ns, variant)
+            m = build_model(mr, ns, variant, suffix_names=(variant == 1))
         except BaseException as e:  # noqa
             return {"bad": [["build-exception", type(e).__name__, "-", repr(e)[:300]]], "n": 0}
         for st in (False, True):
